@@ -114,7 +114,7 @@ def key_of(c, i):
 
 MOPS = ["insert"] * 9 + ["get"] * 3 + ["contains"] * 2 + ["remove"] * 4 + ["try_remove"] * 2 + ["size", "is_empty", "height"]
 VOPS = (["push_back"] * 5 + ["push_front"] * 4 + ["pop_back"] * 2 + ["pop_front"] * 2 + ["delete_at"] * 3 + ["at"] * 4
-        + ["find"] * 2 + ["sort", "smaller", "greater", "get_length", "is_empty"])
+        + ["find"] * 2 + ["sort", "smaller", "greater", "sort_fn", "get_length", "is_empty"])
 QOPS = ["push"] * 6 + ["pop"] * 4 + ["top"] * 2 + ["empty", "is_empty", "size"]
 
 
@@ -219,12 +219,12 @@ def gen_cases(seed, tier):
                 ops.append([ci, "remove", k])
         out.append(("exhaustive-perm%d" % m, {"conts": conts, "ops": ops, "reps": 1}))
     # (2) long single-map histories over small key domains (collisions, rebalancing on remove, emptying)
-    for k in range(24 if q else 400):
+    for k in range(120 if q else 900):
         rng = rng_for(seed, "c19-map", k)
         c = new_cont(rng, "map", kdom=rng.choice([3, 5, 8, 12, 20, 40, 64]))
         out.append(("map-history", gen_random_case(rng, rng.choice([60, 120, 200]), [c])))
     # (3) monotone / zig-zag insertion then removal (every rotation kind, deep trees)
-    for k in range(6 if q else 60):
+    for k in range(12 if q else 90):
         rng = rng_for(seed, "c19-mono", k)
         n = rng.choice([15, 31, 33, 64] if q else [15, 31, 33, 64, 100])
         order = {0: list(range(n)), 1: list(range(n - 1, -1, -1)),
@@ -239,14 +239,14 @@ def gen_cases(seed, tier):
         ops = ops[:199] + [[0, "clear"]]
         out.append(("map-monotone", {"conts": [c], "ops": ops, "reps": 1}))
     # (4) single vector / queue histories
-    for k in range(16 if q else 300):
+    for k in range(90 if q else 700):
         rng = rng_for(seed, "c19-vec", k)
         out.append(("vector-history", gen_random_case(rng, rng.choice([40, 90, 160]), [new_cont(rng, "vec")])))
-    for k in range(12 if q else 200):
+    for k in range(50 if q else 400):
         rng = rng_for(seed, "c19-que", k)
         out.append(("queue-history", gen_random_case(rng, rng.choice([40, 90, 200]), [new_cont(rng, "que")])))
     # (5) several containers and element types interleaved
-    for k in range(30 if q else 500):
+    for k in range(140 if q else 1200):
         rng = rng_for(seed, "c19-mix", k)
         conts = [new_cont(rng, rng.choice(["map", "map", "vec", "que"])) for _ in range(rng.randint(2, 6))]
         if rng.random() < 0.5:       # two objects of the very same type
@@ -261,7 +261,12 @@ CAL = "    void* cal = malloc(12345); free(cal);\n"
 
 def render(case):
     conts, ops = case["conts"], case["ops"]
-    L = ["import stdlib.std.map;", "import stdlib.std.vector;", "import stdlib.std.queue;", "", "void run0() {"]
+    L = ["import stdlib.std.map;", "import stdlib.std.vector;", "import stdlib.std.queue;", ""]
+    for t in sorted(set(c["e"] for c in conts if c["kind"] == "vec")):
+        # descending comparator handed to sort(void* compare_fn): negative = first argument goes first
+        L += ["int c19_desc_%s(%s a, %s b) {" % (t, t, t), "    if (a > b) { return -1; }", "    if (a < b) { return 1; }",
+              "    return 0;", "}", ""]
+    L.append("void run0() {")
     for i, c in enumerate(conts):
         if c["kind"] == "map":
             L.append("    Map<%s, %s> c%d;" % (c["k"], c["v"], i))
@@ -307,6 +312,8 @@ def render(case):
                 L.append("    long t%d = %s.find(%s); println(t%d);" % (tn, nm, lit(et, a[0]), tn))
             elif op in ("get_length", "is_empty"):
                 L.append("    println(%s.%s());" % (nm, op))
+            elif op == "sort_fn":
+                L.append("    %s.sort(&c19_desc_%s);" % (nm, et))
             else:
                 L.append("    %s.%s();" % (nm, op))
             L.append("    println(%s.get_length());" % nm)
@@ -334,6 +341,7 @@ def model_input(case):
     for i, c in enumerate(case["conts"]):
         L.append("C %d %s" % (i, c["kind"]))
     for o in case["ops"]:
+        o = [o[0], "greater"] + list(o[2:]) if o[1] == "sort_fn" else o     # cmp <= 0 <=> a >= b
         L.append("O " + " ".join(str(x) for x in o))
     L.append("END")
     return L
@@ -583,7 +591,7 @@ def spec_expected(case):
                 r = str(s.index(a[0]) if a[0] in s else -1)
             elif op in ("sort", "smaller"):
                 s.sort()
-            elif op == "greater":
+            elif op in ("greater", "sort_fn"):
                 s.sort(reverse=True)
             elif op == "get_length":
                 r = str(len(s))
@@ -704,7 +712,7 @@ def replay_finding(impl_dir, f, asan_dir=None):
         bad = rc != 0 or "runtime error" in e or "AddressSanitizer" in e
         return "fails" if bad or o.split("\n")[:-1] != r["expected_stdout"] else "passes"
     rc, lines, trace, err = run_impl(impl_dir, r["program"], with_shim=True)
-    if rc != 0 or lines != r["expected_stdout"]:
+    if rc != 0 or lines != r["expected_stdout"] or any(t[1] == "X" for t in trace):
         return "fails"
 
     def live_of(ev):
@@ -760,8 +768,8 @@ def run(rep):
         if key in seen:
             continue
         seen.add(key)
-        # non-trivial: some operation returned a value from a non-empty container or changed a height
-        if any(l[0] != "u" and l[1] != "0" for l in mr[0]):
+        # non-trivial: some operation returned a value from a non-empty container, or a tree reached height >= 2
+        if any((l[0] != "u" and l[1] != "0") or l[2] not in ("-", "0", "1") for l in mr[0]):
             nontrivial += 1
         for o in c["ops"]:
             k2 = c["conts"][o[0]]["kind"] + "." + o[1]
@@ -773,7 +781,7 @@ def run(rep):
                 "extracted Coq model: every printed result, size and tree height after every operation, plus the "
                 "interpreter's malloc/free built-in trace vs the model's event log (block-by-block bijection); "
                 "distinct = distinct (containers, operation list); non-trivial = some operation returns a value while "
-                "the container is non-empty",
+                "the container is non-empty, or a tree reaches height >= 2",
         "exhaustive": True,
         "exhaustive_space": "every insertion order of %d distinct keys into Map<int,int> followed by %s removal order"
                             % ((4, "every") if tier == "quick" else (5, "every 5th")),
